@@ -152,8 +152,8 @@ inline std::vector<OpVal> op_menu(bool thorough, bool with_clear) {
     add(SET_PROTOCOL, {"https", "HTTPS", "file", "b", "ws:", "1x"});
     add(SET_USERNAME, {"", "u", "a:@b"});
     add(SET_PASSWORD, {"", "p"});
-    add(SET_HOST, {"example.org", "h:99", "1.2.3.4", "1.2.3.4.5", "[::2]", "", "a b", "x/y", "0x10", EACUTE ".x"});
-    add(SET_HOSTNAME, {"h2", "h:99", "", "2.3.4.5", "256.256.256.256", "[1::]"});
+    add(SET_HOST, {"example.org", "h:99", "h:", "1.2.3.4", "1.2.3.4.5", "[::2]", "", "a b", "x/y", "0x10", EACUTE ".x"});
+    add(SET_HOSTNAME, {"h2", "h:99", "", "2.3.4.5", "256.256.256.256", "[1::]", "LOCALHOST"});
     add(SET_PORT, {"", "80", "443", "8080", "1000", "00", "99999", "1x"});
     add(SET_PATHNAME, {"", "/", "//x", "/a/../b", "/a/./b/.c", "\\a", "c d", "/C|/z", "?#"});
     add(SET_SEARCH, {"", "?", "a=b c", "\n?y"});
